@@ -19,7 +19,9 @@ ALSO = {  # further properties whose quick check is expected/observed to notice 
     "C15c-components-cached-property": ["C12"], "C17c-projection-basis-cached": ["C12"], "C18c-edges-cached-property": ["C12", "C16"],
     "C16c-edges-cached-property": ["C18"], "C06c-inverse-memo-never-invalidated": ["C07", "C12"], "C07c-inverse-cache-array-identity": ["C06"],
     "C10c-perpendicular-complex-alias": ["C12"], "C11c-crossratio-fill-aliases-operand": ["C12"], "C19c-normalize-astype-nocopy": ["C12"],
-    "C03c-sphere-int-centre-dtype": ["C13"],
+    "C03c-sphere-int-centre-dtype": ["C13"], "C03d-pencil-section-normalized-argmax": ["C11"], "C07d-lineline-any-coplanar": ["C02"],
+    "C06d-adjugate3-cross-stack-axis": ["C20"], "C09d-basepoint-any-over-collection": ["C04"], "C04d-iscoplanar-early-exit-all": ["C10"],
+    "C01d-meshgrid-xy-indexing": ["C02"],
     "C06b-inv-reciprocal-int-batch": ["C20"], "C02b-meshgrid-xy-indexing": ["C01"], "C12b-normalize-asarray-alias": ["C03"],
 }
 
